@@ -77,6 +77,49 @@ def multi(rng, collide):
             "probes": True, "kind": "collide" if collide else "multi"}
 
 
+def cross_names(rng):
+    """Unrelated classes whose vocabularies cross: the attribute names that one class gives to its callbacks (referenced
+    by name) are names that ANOTHER class uses for its states or events.  What a name means is decided per class."""
+    ncls = rng.choice([2, 3])
+    pools = [EVS[:2], EVS[2:], ["eps", "zeta"]]
+    classes = []
+    for k in range(ncls):
+        d = gen.rand_def(rng, provs=("sm",), dense=rng.choice([0.5, 0.9]), coro=0.0, guards=True, guard_p=0.6,
+                         validators=rng.random() < 0.3, events=pools[k], styles=False, nstates=rng.randint(2, 4))
+        gen.rename_states(d, "abc"[k])
+        classes.append(d)
+    for k, d in enumerate(classes):
+        foreign = [s["id"] for j, o in enumerate(classes) if j != k for s in o["states"]]
+        foreign += [e for j in range(ncls) if j != k for e in pools[j]]
+        rng.shuffle(foreign)
+        for cb in d["cbs"]:
+            if cb["style"] == "name" and foreign and rng.random() < 0.8:
+                cb["name"] = foreign.pop()
+    steps, slots = [], {}
+    lazy = [k for k in range(1, ncls + 1) if rng.random() < 0.5]
+    for _ in range(rng.randint(6, 14)):
+        free = [i for i in (1, 2, 3) if i not in slots]
+        r = rng.random()
+        if (r < 0.35 or not slots) and free:
+            k = rng.randint(1, ncls)
+            if k in lazy:
+                steps.append({"op": "class", "k": k})
+                lazy.remove(k)
+            steps.append({"op": "new", "i": free[0], "cls": k,
+                          "opt": {"rtc": rng.random() < 0.7, "allow": rng.random() < 0.3, "start": "", "budget": 2},
+                          "stored": "", "provs": ["sm"], "gv": gen.rand_gv(rng)})
+            slots[free[0]] = k
+        elif r < 0.45 and lazy:
+            steps.append({"op": "class", "k": lazy.pop(0)})
+        elif slots:
+            i = rng.choice(list(slots))
+            steps.append({"op": "call", "i": i, "api": rng.choice(["send", "event"]),
+                          "ev": rng.choice(classes[slots[i] - 1]["evlist"]), "gv": gen.rand_gv(rng)})
+    steps += [{"op": "class", "k": k} for k in lazy]
+    return {"classes": classes, "steps": steps, "script": {}, "failAt": [], "budget": 2, "ni": 3, "driver": "sync",
+            "probes": True, "kind": "cross_names"}
+
+
 def inherit(rng, extend):
     base = gen.rand_def(rng, provs=("sm",), dense=rng.choice([0.0, 0.5]), guards=False, validators=False, events=EVS,
                         styles=False, nstates=rng.randint(2, 3), finals=False)
@@ -177,11 +220,13 @@ def run(pid, tier, seed, replay):
     scns += [inherit(rng, extend=False) for _ in range(n // 2)]
     scns += [inherit(rng, extend=True) for _ in range(20 if quick else 200)]
     scns += [bags(rng) for _ in range(n // 2)]
+    scns += [cross_names(rng) for _ in range(n // 2)]
     rng.shuffle(scns)
     # the two-instance exhaustive model: all interleavings of two machines of one small definition
     ec.run_validate(chk, scns, "isolation: programs", shards=5 if quick else 12, featurize=featurize)
     chk.coverage["rule"] = ("programs of 6-16 steps interleaving class statements (2-3 independent classes; classes sharing one class "
                             "name and method names with different async-ness; subclasses adding callbacks; subclasses extending "
-                            "inherited states), instantiation of up to 3 machines and events on them; all instances and all class "
+                            "inherited states; classes whose callback names are other classes' state and event names; attribute-bag "
+                            "models and listeners of one Python class), instantiation of up to 3 machines and events on them; all instances and all class "
                             "objects are read back after every step")
     return chk.finish()
